@@ -18,6 +18,10 @@ pub mod clitab;
 pub mod c12;
 pub mod c13;
 pub mod c14;
+pub mod c15;
+pub mod c16;
+pub mod c17;
+pub mod c18;
 pub mod c19;
 pub mod c20;
 pub mod common;
@@ -44,6 +48,10 @@ pub fn lookup(id: &str) -> Option<PropDef> {
         "C12" => PropDef { run: c12::run, replay: c12::replay },
         "C13" => PropDef { run: c13::run, replay: c13::replay },
         "C14" => PropDef { run: c14::run, replay: c14::replay },
+        "C15" => PropDef { run: c15::run, replay: c15::replay },
+        "C16" => PropDef { run: c16::run, replay: c16::replay },
+        "C17" => PropDef { run: c17::run, replay: c17::replay },
+        "C18" => PropDef { run: c18::run, replay: c18::replay },
         "C19" => PropDef { run: c19::run, replay: c19::replay },
         "C20" => PropDef { run: c20::run, replay: c20::replay },
         _ => return None,
